@@ -317,8 +317,11 @@ CONST_OF = {
     "C19": ["missing", "max_batches"],
     "C20": ["missing", "dele_ctx"],
 }
+# `missing` (a constant the extractor could no longer find) is not a tie of its own any more: a constant that is not found
+# is not defined in Generated/Constants.lean, so exactly the ties that mention it fail to elaborate — and only the
+# properties that depend on that constant report it (a benign refactoring of online.rs raised C14's alarm before).
 for _pid, _names in CONST_OF.items():
-    PROPS[_pid]["const_checks"] = [(n,) + CONST[n] for n in _names]
+    PROPS[_pid]["const_checks"] = [(n,) + CONST[n] for n in _names if n != "missing"]
 
 
 # theorems added later (Rough/Props/Extra.lean), attributed to their properties
